@@ -11,8 +11,8 @@
     unicode.ToLower / unicode.IsSpace; nothing is assumed of any of these oracles.
     "Every cache content" = every state satisfying the C12 invariant [Inv], i.e. (C12) every state
     the cache operations can reach; the theorems are stated for [Inv] and for histories. *)
-From CM Require Import Lib.Str Gen.Consts Cache.Model Cache.AMapFacts Cache.Proofs
-  Lookup.Model Lookup.Proofs Lookup.Check Lookup.SpecProofs.
+From CM Require Import Lib.Str Lib.QualSteps Gen.Consts Cache.Model Cache.AMapFacts Cache.Proofs Cache.Check
+  Lookup.Model Lookup.Proofs Lookup.ProofsX Lookup.Check Lookup.SpecProofs.
 From Coq Require Import Arith.
 Open Scope nat_scope.
 
@@ -149,15 +149,149 @@ Theorem C03_covers_iff_match_wildcard : forall lower subject wildcard,
 Proof. exact match_wildcard_covers. Qed.
 Print Assumptions C03_covers_iff_match_wildcard.
 
+(** ================= the extended model [lookup_x] =================
+    [lookup_x] adds to [lookup]: any selection policy [sel] (selectCert with or without a
+    Config.CertSelection), getNameFromClientHello's choice of the name from the IDNA form of the
+    server name (computed by the harness with x/net/idna, not by the code under test),
+    SubjectQualifiesForCert (conjuncts read from the source), loadCertFromStorage over the storage
+    content, and the cache after the call. *)
+
+(** with the default policy its answer is [lookup]'s: everything above holds of it *)
+Theorem C03_lookup_x_is_lookup : forall lower is_space sup valid s cap cfg sni ip e,
+  fst (lookup_x lower is_space (select_cert sup valid) s cap cfg sni ip e) =
+  lookup lower is_space sup valid s cap cfg sni ip (env_of lower is_space cfg ip e).
+Proof. exact lookup_x_default. Qed.
+Print Assumptions C03_lookup_x_is_lookup.
+
+(** F lookup_sound, complete form (default policy): an error, or a certificate really in the cache
+    covering the server name / listing the local IP (no SNI) / the default name (no SNI) / the
+    fallback name -- or, only when the cache is almost full, a certificate loaded from storage that
+    lists a name covering the requested name (its IDNA form; the default name or local IP without
+    SNI) exactly or with its first label replaced by "*".  So with the default policy a certificate
+    that covers neither is only ever the default name's (no SNI) or the fallback name's. *)
+Theorem C03_lookup_sound_x : forall lower is_space sup valid names_of cap s cfg sni ip e c s',
+  Inv names_of cap s -> storage_wf (x_storage e) ->
+  lookup_x lower is_space (select_cert sup valid) s cap cfg sni ip e = (ROk c, s') ->
+  let n := normalize lower is_space sni in
+  (alookup (c_hash c) (cache s) = Some c /\
+   ((n <> [] /\ exists san, In san (c_names c) /\ covers san n) \/
+    (n = [] /\ In ip (c_names c)) \/
+    (n = [] /\ default_name cfg <> [] /\ In (normalize lower is_space (default_name cfg)) (c_names c)) \/
+    (fallback_name cfg <> [] /\ In (normalize lower is_space (fallback_name cfg)) (c_names c)))) \/
+  (almost_full cap (length (cache s)) = true /\
+   exists nm x, hello_name lower is_space cfg ip (x_idna e) = Some nm /\
+                subject_qualifies is_space nm = true /\
+                load_from_storage (x_storage e) nm = Some x /\ sd_fresh x = true /\ c = sd_cert x /\
+                exists san, In san (c_names c) /\ covers san nm).
+Proof. intros. eapply lookup_x_sound; eauto. Qed.
+Print Assumptions C03_lookup_sound_x.
+
+(** the order in which names are offered to selectCert -- local IP, default name (no SNI) or
+    exact name, "*.b.c", "*.*.c", ... -- then the fallback name: the first accepted one decides,
+    whatever the selection policy *)
+Theorem C03_names_tried_in_order : forall lower is_space sel s cfg sni ip,
+  from_cache_x lower is_space sel s cfg sni ip =
+  first_tried sel s (tried lower is_space cfg sni ip).
+Proof. exact from_cache_x_first_tried. Qed.
+Print Assumptions C03_names_tried_in_order.
+
+(** F custom_selector_scope: with a Config.CertSelection (any of the policies) the answer is an
+    error, or a certificate of the cache that the selector chose for the first tried name for which
+    it accepted a choice -- offered the certificates listed under that name, all cached ones only if
+    none is listed --, or the certificate loaded from storage.  A custom selector may thus answer
+    with a certificate that does not cover the name: that is its documented purpose. *)
+Theorem C03_custom_selector_scope : forall lower is_space sup valid names_of cap p s cfg sni ip e c s',
+  Inv names_of cap s ->
+  lookup_x lower is_space (sel_policy sup valid p) s cap cfg sni ip e = (ROk c, s') ->
+  (alookup (c_hash c) (cache s) = Some c /\
+   exists pre v b post, tried lower is_space cfg sni ip = pre ++ (v, b) :: post /\
+     Forall (fun q => sel_policy sup valid p s (fst q) = None) pre /\
+     sel_policy sup valid p s v = Some c /\
+     (p <> PDefault -> In c (choices_for s v))) \/
+  (exists x, load_ok lower is_space cap s cfg ip e x /\ sd_fresh x = true /\ c = sd_cert x).
+Proof. intros. eapply custom_selector_scope; eauto. Qed.
+Print Assumptions C03_custom_selector_scope.
+
+(** a custom selector is offered exactly the certificates listed under the name when there are any *)
+Theorem C03_custom_choices_when_listed : forall s n,
+  idx s n <> [] -> choices_for s n = get_all_matching_certs s n.
+Proof. exact choices_for_listed. Qed.
+Print Assumptions C03_custom_choices_when_listed.
+
+(** complete answer, any policy: if every cached and every stored certificate is complete *)
+Theorem C03_answer_complete_x : forall (complete : cert -> Prop) lower is_space sup valid names_of cap p s cfg sni ip e c s',
+  Inv names_of cap s ->
+  (forall h x, alookup h (cache s) = Some x -> complete x) ->
+  (forall k x, alookup k (x_storage e) = Some x -> complete (sd_cert x)) ->
+  lookup_x lower is_space (sel_policy sup valid p) s cap cfg sni ip e = (ROk c, s') -> complete c.
+Proof.
+  intros complete lower is_space sup valid names_of cap p s cfg sni ip e c s' HI Hc Hs H.
+  destruct (custom_selector_scope sup valid names_of cap lower is_space p s cfg sni ip e c s' HI H)
+    as [[Hx _]|(x & (nm & _ & _ & _ & Hl) & _ & ->)]; [eauto|].
+  unfold load_from_storage in Hl. destruct (alookup nm (x_storage e)) eqn:E.
+  - injection Hl as <-. eauto.
+  - eauto.
+Qed.
+Print Assumptions C03_answer_complete_x.
+
+(** what is loaded from storage covers the name it was loaded for *)
+Theorem C03_loaded_covers_name : forall st nm x,
+  storage_wf st -> load_from_storage st nm = Some x ->
+  exists san, In san (c_names (sd_cert x)) /\ covers san nm.
+Proof. exact loaded_covers. Qed.
+Print Assumptions C03_loaded_covers_name.
+
+(** the cache and a lookup: the C12 invariant (index and cache agree, within capacity) survives
+    every lookup, whatever the policy; and only the almost-full branch touches the cache *)
+Theorem C03_lookup_preserves_cache_invariant : forall lower is_space sel names_of s cap cfg sni ip e,
+  Inv names_of cap s ->
+  (forall k x, alookup k (x_storage e) = Some x -> wf_cert names_of (sd_cert x)) ->
+  Inv names_of cap (snd (lookup_x lower is_space sel s cap cfg sni ip e)).
+Proof. intros. eapply lookup_x_inv; eauto. Qed.
+Print Assumptions C03_lookup_preserves_cache_invariant.
+
+Theorem C03_lookup_touches_cache_only_when_almost_full : forall lower is_space sel s cap cfg sni ip e,
+  almost_full cap (length (cache s)) = false ->
+  snd (lookup_x lower is_space sel s cap cfg sni ip e) = s.
+Proof. intros. eapply lookup_x_unchanged; eauto. Qed.
+Print Assumptions C03_lookup_touches_cache_only_when_almost_full.
+
+(** a name that does not qualify (SubjectQualifiesForCert) is refused unless the cache matched:
+    no default, no fallback, nothing loaded *)
+Theorem C03_unqualified_name_refused : forall lower is_space sel s cap cfg sni ip e nm,
+  hello_name lower is_space cfg ip (x_idna e) = Some nm -> subject_qualifies is_space nm = false ->
+  (forall c v, from_cache_x lower is_space sel s cfg sni ip <> Some (c, true, v)) ->
+  lookup_x lower is_space sel s cap cfg sni ip e = (RErr, s).
+Proof. exact unqualified_refused. Qed.
+Print Assumptions C03_unqualified_name_refused.
+
+(** translator tie: the conjuncts of SubjectQualifiesForCert read from the source today, and the
+    almost-full factor *)
+Theorem C03_code_constants_today :
+  qualify_conds = [QNonBlank; QNotPrefix [46%N]; QNotSuffix [46%N];
+                   QOnlyIf [42%N] [42%N; 46%N] [42%N]; QNoneOf reject_chars_ref] /\
+  almost_full_num = 9 /\ almost_full_den = 10.
+Proof. repeat split; reflexivity. Qed.
+Print Assumptions C03_code_constants_today.
+
 (** the run-time monitor is the boolean form of the statements above: it holds of what the model
-    answers on every cache satisfying the invariant *)
+    answers on every cache satisfying the invariant, for every policy *)
 Theorem C03_spec_ok_of_model : forall lower is_space names_of c,
   Inv names_of (l_cap c) (l_state c) ->
   (forall h x, alookup h (cache (l_state c)) = Some x -> at_complete (attr_get (l_attrs c) h) = true) ->
-  (forall lc, loaded (l_env c) = Some lc -> l_loaded_complete c = true) ->
-  spec_lookup lower is_space (with_obs c (obs_of c (run_lookup lower is_space c))) = true.
+  (forall k x, alookup k (x_storage (l_envx c)) = Some x ->
+     alookup (c_hash (sd_cert x)) (l_stored_complete c) = Some true) ->
+  spec_lookup_o lower is_space c (obs_of c (fst (run_lookup lower is_space c))) = true.
 Proof. exact spec_lookup_of_model. Qed.
 Print Assumptions C03_spec_ok_of_model.
+
+Theorem C03_spec_cache_of_model : forall lower is_space c,
+  let nm := names_of_pool (Check.case_certs c) in
+  Inv nm (l_cap c) (l_state c) ->
+  (forall k x, alookup k (x_storage (l_envx c)) = Some x -> wf_cert nm (sd_cert x)) ->
+  spec_cache_p c (snd (run_lookup lower is_space c)) = true.
+Proof. exact spec_cache_of_model. Qed.
+Print Assumptions C03_spec_cache_of_model.
 
 (** ---- non-vacuity: a reachable cache, and lookups exercising each clause ---- *)
 Definition s_ (l : list N) : str := l.
@@ -192,4 +326,42 @@ Example C03_hypotheses_satisfiable :
 Proof.
   split; [|vm_compute; repeat split].
   repeat constructor; cbn; try discriminate; reflexivity.
+Qed.
+
+(** ---- non-vacuity of the extended statements ---- *)
+Definition n_qy : name := [113; 46; 121]%N.          (* q.y *)
+Definition n_sy : name := [42; 46; 121]%N.           (* *.y *)
+Definition ex_L := Cert [76]%N [n_qy] true [100]%N [] 0%Z [].            (* L: q.y, managed, in storage *)
+Definition ex_W := Cert [87]%N [n_sy] true [100]%N [] 0%Z [].            (* W: *.y, managed, in storage *)
+Definition ex_full := run 1 init [OAdd ex_f None].                       (* capacity 1, holding f.y *)
+Definition ex_lookup_x (st : amap stored) sni :=
+  lookup_x ascii_lower ascii_space (select_cert (fun _ => true) ex_valid) ex_full 1 (Config [] n_fb) sni n_ip
+           (EnvX (Some sni) st (Some [102]%N)).
+
+Example C03_x_hypotheses_satisfiable :
+  (* a full cache (1 of 1): "q.y" is not cached but in storage and fresh: loaded, evicting f.y *)
+  ex_lookup_x [(n_qy, Stored ex_L true)] n_qy = (ROk ex_L, run 1 init [OAdd ex_f None; OAdd ex_L (Some [102]%N)]) /\
+  storage_wf [(n_qy, Stored ex_L true)] /\
+  (* found under the name with its first label replaced by "*" *)
+  fst (ex_lookup_x [(n_sy, Stored ex_W true)] n_qy) = ROk ex_W /\
+  (* in storage but due for renewal: it cannot be maintained with on-demand TLS off; the fallback
+     certificate is served -- although it has just been evicted -- and the cache ends up empty *)
+  ex_lookup_x [(n_qy, Stored ex_L false)] n_qy = (ROk ex_f, St [] []) /\
+  (* nothing in storage: the fallback, the cache untouched *)
+  ex_lookup_x [] n_qy = (ROk ex_f, ex_full) /\
+  (* a name that does not qualify: refused although a fallback is configured *)
+  ex_lookup_x [] [113; 33; 46; 121]%N = (RErr, ex_full) /\
+  (* custom selectors on the 4-certificate cache: "zz.q" is listed nowhere, so all cached
+     certificates are offered: the largest hash wins; a refusing selector gives an error; one that
+     accepts only supported unexpired choices picks e2 for "a.x" *)
+  fst (lookup_x ascii_lower ascii_space (sel_policy (fun _ => true) ex_valid PMax) ex_state 0 (Config [] [])
+         [122; 122; 46; 113]%N n_ip (EnvX (Some [122; 122; 46; 113]%N) [] None)) = ROk ex_w /\
+  fst (lookup_x ascii_lower ascii_space (sel_policy (fun _ => true) ex_valid PRefuse) ex_state 0 (Config [] n_fb)
+         n_ax n_ip (EnvX (Some n_ax) [] None)) = RErr /\
+  fst (lookup_x ascii_lower ascii_space (sel_policy (fun _ => true) ex_valid PGoodMin) ex_state 0 (Config [] [])
+         n_ax n_ip (EnvX (Some n_ax) [] None)) = ROk ex_e2.
+Proof.
+  repeat split; try (vm_compute; reflexivity).
+  intros k x H. cbn in H. destruct (str_eqb k n_qy) eqn:E; [|discriminate].
+  injection H as <-. apply str_eqb_eq in E. subst k. left. reflexivity.
 Qed.
